@@ -108,18 +108,26 @@ Proof.
   apply andb_true_iff. split; assumption.
 Qed.
 
+Lemma get_ver_try : forall m v, get_ver_from_magic_num m = Ok v -> try_get_ver_from_magic_num m = Some v.
+Proof.
+  intros m v H. unfold get_ver_from_magic_num in H.
+  destruct (try_get_ver_from_magic_num m) as [w|]; [|discriminate].
+  injection H as H. now subst.
+Qed.
+
 Lemma magic_ok_sound : forall minor b0 b1 b2 b3, magic_ok (minor, [b0; b1; b2; b3]) = true -> minor <= 12 ->
   get_ver_from_magic_num (get_magic_num_from_bytes b0 b1 b2 b3) = Ok (3, minor)
+  /\ try_get_ver_from_magic_num (get_magic_num_from_bytes b0 b1 b2 b3) = Some (3, minor)
   /\ get_magic_num_bytes (get_magic_num_from_bytes b0 b1 b2 b3) = [b0; b1; b2; b3].
 Proof.
   intros minor b0 b1 b2 b3 H Hle. unfold magic_ok in H.
   assert (12 <? minor = false) as Hlt by (apply N.ltb_ge; exact Hle).
   rewrite Hlt in H.
-  destruct (get_ver_from_magic_num (get_magic_num_from_bytes b0 b1 b2 b3)) as [[major mi]|]; [|discriminate].
+  destruct (get_ver_from_magic_num (get_magic_num_from_bytes b0 b1 b2 b3)) as [[major mi]|] eqn:Hv; [|discriminate].
   apply andb_true_iff in H. destruct H as [H Hb].
   apply andb_true_iff in H. destruct H as [Hma Hmi].
   apply N.eqb_eq in Hma. apply N.eqb_eq in Hmi. subst.
-  split; [reflexivity|now apply list_eqb_eq].
+  split; [reflexivity|]. split; [now apply get_ver_try|now apply list_eqb_eq].
 Qed.
 
 (* ------------------------------------------------------------------ the computations over the generated tables *)
@@ -209,6 +217,7 @@ Qed.
 Lemma magic_versions : forall minor b0 b1 b2 b3,
   In (minor, [b0; b1; b2; b3]) cpy_magic -> minor <= 12 ->
   get_ver_from_magic_num (get_magic_num_from_bytes b0 b1 b2 b3) = Ok (3, minor)
+  /\ try_get_ver_from_magic_num (get_magic_num_from_bytes b0 b1 b2 b3) = Some (3, minor)
   /\ get_magic_num_bytes (get_magic_num_from_bytes b0 b1 b2 b3) = [b0; b1; b2; b3].
 Proof.
   intros minor b0 b1 b2 b3 Hin Hle. apply magic_ok_sound; [|assumption].
